@@ -21,6 +21,9 @@ def swarm(rng):
     if rng.random() < 0.2:
         cfg["gadget_derived_uncached"] = True
         cfg["n_spaces"] = max(cfg["n_spaces"], 3)
+    elif rng.random() < 0.12:
+        cfg["gadget_attr_through_uncached"] = True
+        cfg["n_spaces"] = max(cfg["n_spaces"], 3)
     return cfg
 
 
@@ -142,7 +145,31 @@ class C09(PropBase):
                            {"op": "eval", "loc": ["B", "U"], "name": "g", "args": [2], "spell": "pos"},
                            {"op": "eval", "loc": ["C"], "name": "h", "args": [rr.choice([1, 2, 3])], "spell": "pos"}):
                     run.step(op)
+            if cfg.get("gadget_attr_through_uncached"):
+                # a reference of another space read by attribute path twice on one call chain: by the outer formula, and by an
+                # uncached cells that a cached cells in between calls - the one in between depends on it through the uncached one
+                rr = ctx.rng("gadget")
+                rd = ["a", ["_model", "D"], "k"]
+                def cells(name, cached, ret):
+                    return {"op": "new_cells", "space": "A", "name": name, "is_cached": cached,
+                            "formula": {"style": "lambda", "params": [["x", None]], "ret": ret}}
+                flags = rr.choice([(False, True, True), (False, True, False), (False, True, True), (True, True, True), (False, False, True)])
+                call = lambda n: ["call", [], n, [["p", "x"]], "pos", ["x"]]
+                for op in ({"op": "new_space", "parent": "", "name": "D", "bases": []},
+                           {"op": "set_ref", "space": "D", "name": "k", "value": {"t": "int", "v": 1007}},
+                           {"op": "new_space", "parent": "", "name": "A", "bases": []},
+                           cells("f", flags[0], ["bin", "+", rd, ["p", "x"]]),
+                           cells("g", flags[1], ["bin", "+", call("f"), ["c", 1]]),
+                           cells("h", flags[2], ["bin", "+", rd, call("g")] if rr.random() < 0.7 else ["bin", "+", call("g"), rd]),
+                           {"op": "eval", "loc": ["A"], "name": "h", "args": [2], "spell": "pos"}):
+                    run.step(op)
             run.generate(WEIGHTS, cfg["n_steps"], cfg["p_check"])
+            if cfg.get("gadget_attr_through_uncached"):
+                qh = {"op": "eval", "loc": ["A"], "name": "h", "args": [2], "spell": "pos"}
+                qg = {"op": "eval", "loc": ["A"], "name": "g", "args": [2], "spell": "pos"}
+                for op in (qh, {"op": "set_ref", "space": "D", "name": "k", "value": {"t": "int", "v": 900100}},
+                           qg, qh, {"op": "checkpoint", "extra": [qg, qh], "final": True}):
+                    run.step(op)
             if cfg.get("gadget_derived_uncached"):
                 # whatever the random history left of the gadget: flip the base's flag (or delete the base definition), let a few
                 # steps pass, change the reference the cells reads by name, and ask again
